@@ -343,6 +343,16 @@ func BoolCallEdges(fn *ssa.Function, ok func(c *ssa.Call) bool) EdgeSet {
 				continue
 			}
 			c, _ := f.Subject.(*ssa.Call)
+			if c == nil {
+				// the boolean component of a tuple result: found, err := contains(list, x)
+				if ex, isEx := f.Subject.(*ssa.Extract); isEx {
+					if tc, isCall := ex.Tuple.(*ssa.Call); isCall {
+						if b, isB := ex.Type().Underlying().(*types.Basic); isB && b.Kind() == types.Bool {
+							c = tc
+						}
+					}
+				}
+			}
 			if c == nil || !ok(c) {
 				continue
 			}
